@@ -21,8 +21,20 @@ import (
 	"time"
 )
 
+// cleanups run before the process ends through die2 or a violation exit (deferred calls
+// do not survive os.Exit): scratch directories must not be left behind.
+var cleanups []func()
+
+func runCleanups() {
+	for i := len(cleanups) - 1; i >= 0; i-- {
+		cleanups[i]()
+	}
+	cleanups = nil
+}
+
 func die2(format string, args ...interface{}) {
 	fmt.Fprintf(os.Stderr, "verif: "+format+"\n", args...)
+	runCleanups()
 	os.Exit(2)
 }
 
@@ -408,12 +420,16 @@ func main() {
 		if len(os.Args) < 4 {
 			die2("usage: driver check <property> <quick|thorough>")
 		}
-		os.Exit(runCheck(os.Args[2], os.Args[3]))
+		code := runCheck(os.Args[2], os.Args[3])
+		runCleanups()
+		os.Exit(code)
 	case "replay":
 		if len(os.Args) < 3 {
 			die2("usage: driver replay <file>")
 		}
-		os.Exit(runReplay(os.Args[2]))
+		code := runReplay(os.Args[2])
+		runCleanups()
+		os.Exit(code)
 	default:
 		die2("unknown command %q", os.Args[1])
 	}
